@@ -719,6 +719,8 @@ def run_link(rng, tier, res, full):
     def driver():
         b.set(stub.source.valid, 1)
         b.set(stub.raw_source.valid, 1)
+        if full:
+            b.set(link.header_source.ready, 1)        # the protocol layer takes every received header at once
         for _ in range(min(plan["ready_delay"], plan["vbus_delay"])):
             yield
         if plan["ready_delay"] <= plan["vbus_delay"]:
